@@ -143,6 +143,9 @@ def structural_invariants(m):
         if key not in nd.columns and key not in ed.columns:
             out.append(f"dangling: trainable of unknown key {key}")
             continue
+        nv = int(np.asarray(next(iter(p.values()))).reshape(-1).shape[0])
+        if np.asarray(inds).ndim != 2 or np.asarray(inds).shape[0] != nv:
+            out.append(f"trainable {key}: {nv} values for an index array of shape {np.asarray(inds).shape}")
         limit = n if key in nd.columns else ne
         for i in np.asarray(inds).reshape(-1).tolist():
             if not (0 <= int(i) < limit):
